@@ -280,6 +280,18 @@ def readset_case(ctx, g):
     perm = rng.permutation(N)
     got = np.array(hd.batch_marginal_ln_likelihood(np.ascontiguousarray(rows[perm])))
     hr = pickle.loads(pickle.dumps(hd))
+    # a helper rebuilt from __reduce__ is, before its first use, cell for cell a pristine helper (whatever the
+    # pickled one went through): `rebuild (reduce h) = init h.imm`.  (No cell-level claim is made about the
+    # dirty helper itself: a cell that kept its initial value during the discovery probes may still be scratch.)
+    rel4 = "helper rebuilt from __reduce__ equals a pristine helper (Hist.rebuild_reduce_imm)"
+    ctx.evaluated(rel4, ("rebuild", K_kind, pr.p > 1, pr.q > 0))
+    cur = array_attrs(hr)
+    for k, v0 in snap.items():
+        if k not in cur or cur[k].shape != v0.shape or neq(cur[k], v0).any():
+            ctx.violation(rel4, g, dict(inp, attr=k), cur.get(k), v0, f"attribute {k} of a helper that went through "
+                          "__reduce__/dill differs from the same attribute of a newly constructed helper",
+                          tags=dict(relation="rebuild"))
+            break
     got_r = np.array(hr.batch_marginal_ln_likelihood(np.ascontiguousarray(rows[perm])))
     ctx.evaluated(rel3, ("batch", K_kind) if nontriv else None)
     for name, gg in (("dirty", got), ("rebuilt", got_r)):
@@ -288,18 +300,6 @@ def readset_case(ctx, g):
             ctx.violation(rel3, g, dict(inp, order=[int(v) for v in perm], helper=name), gg, fresh_ll[perm],
                           f"row at batch position {j} evaluated on a {name} helper differs from its pristine value",
                           tags=dict(relation="helper-batch", helper=name))
-    # immutable part survives the history and the rebuild
-    rel4 = "steps do not write the immutable part (Hist.step_preserves_imm)"
-    ctx.evaluated(rel4, None)
-    for name, hh in (("dirty", hd), ("rebuilt", hr)):
-        cur = array_attrs(hh)
-        for k, v0 in snap.items():
-            if k in cur and cur[k].shape == v0.shape:
-                changed = neq(cur[k], v0) & ~masks.get(k, np.zeros(v0.shape, dtype=bool))
-                if changed.any():
-                    ctx.violation(rel4, g, dict(inp, attr=k, helper=name), cur[k][changed][:4], v0[changed][:4],
-                                  f"cells of {k} outside the per-sample scratch set changed on the {name} helper",
-                                  tags=dict(relation="imm"))
 
 
 # ---------------------------------------------------------------------------------------------------------
@@ -496,7 +496,14 @@ def paths_case(ctx, g):
         for v in variants:
             parent = rec.RecGen(seed)
             j = pr.joker(rng=parent, pool=rec.RecPool(size=int(rng.integers(1, 4)), wrap_children=False))
-            out = hl.do_call(j, pr, v, lib=lib, path=path)
+            try:
+                out = hl.do_call(j, pr, v, lib=lib, path=path)
+            except RuntimeError as e:
+                # non-finite likelihoods: the cache path raises RuntimeError, the in-memory path *returns* one
+                # (C14's business); for path independence both are the outcome "RuntimeError"
+                out = {"samples": None, "lls": None, "_obj": None, "returned": "RuntimeError"}
+            if str(out.get("returned") or "").startswith("RuntimeError"):
+                out["returned"] = "RuntimeError"
             route = "mem" if v["in_memory"] else "file"
             s = out.get("_obj")
             acc = hl.accepted_rows(s, ref.rows(0, route)[:, 0], v["opts"].get("n_linear_samples", 1)) if s is not None else None
@@ -506,7 +513,7 @@ def paths_case(ctx, g):
     r0 = results[0]
     n_eval = None
     if entry == "rejection":
-        n_eval = len(r0["out"]["lls"]["array"][1])
+        n_eval = len(r0["out"]["lls"]["array"][1]) if r0["out"].get("lls") else None
     else:
         us = [c for c in r0["calls"] if c["method"] == "uniform"]
         n_eval = int(np.size(us[-1]["out"])) if us else None
@@ -532,6 +539,8 @@ def paths_case(ctx, g):
     if entry == "rejection":
         rel2 = "accepted positions = Hist.accepted(lls, recorded uniforms)"
         for r in results[:1] + results[-1:]:
+            if not r["out"].get("lls"):
+                continue
             lls = np.asarray(r["out"]["lls"]["array"][1])
             us = [c for c in r["calls"] if c["method"] == "uniform"]
             if not us or not np.all(np.isfinite(lls)) or r["acc"] is None:
